@@ -174,6 +174,7 @@ func (e *Executor) RunTask(ctx context.Context, call *Call) error {
 			return err
 		}
 
+		verifhook.Pause(ctx)
 		preCondMet, err := e.areTaskPreconditionsMet(ctx, t)
 		if err != nil {
 			verifhook.Ev(ctx, "precondFail")
@@ -188,6 +189,7 @@ func (e *Executor) RunTask(ctx context.Context, call *Call) error {
 				method = t.Method
 			}
 
+			verifhook.Pause(ctx)
 			upToDate, err := fingerprint.IsTaskUpToDate(ctx, t,
 				fingerprint.WithMethod(method),
 				fingerprint.WithTempDir(e.TempDir.Fingerprint),
